@@ -607,3 +607,67 @@ package interpreter
 //@   bytes token
 //@   opt forall-patterns 1
 //@   ensures[C05.opcodeHash256] (and (= (= err nil) (>= (old (len (. t dstack stk))) 1)) (=> (= err nil) (spec.stack_res_bytes t 1 (bsha256d (old (spec.top_bytes t 0))))))
+
+// ---- C05 (continued): bitwise AND/OR/XOR/INVERT (elementwise over the byte cells), CAT, SPLIT ----
+//@ func interpreter.opcodeAnd
+//@   bytes array
+//@   opt index-fn 1
+//@   ensures[C05.opcodeAnd_err] (= (= err nil) (and (>= (old (len (. t dstack stk))) 2) (= (old (len (at (. t dstack stk) (- (len (. t dstack stk)) 1)))) (old (len (at (. t dstack stk) (- (len (. t dstack stk)) 2)))))))
+//@   ensures[C05.opcodeAnd] (=> (= err nil) (and (= (len (. t dstack stk)) (- (old (len (. t dstack stk))) 1)) (= (len (at (. t dstack stk) (- (len (. t dstack stk)) 1))) (old (len (at (. t dstack stk) (- (len (. t dstack stk)) 1))))) (forall ((i Int)) (=> (and (<= 0 i) (< i (len (at (. t dstack stk) (- (len (. t dstack stk)) 1))))) (= (at (at (. t dstack stk) (- (len (. t dstack stk)) 1)) i) (bitand (old (at (at (. t dstack stk) (- (len (. t dstack stk)) 1)) i)) (old (at (at (. t dstack stk) (- (len (. t dstack stk)) 2)) i)))))) (forall ((k Int)) (=> (and (<= 0 k) (< k (- (len (. t dstack stk)) 1))) (= (at (. t dstack stk) k) (old (at (. t dstack stk) k)))))))
+//@   loop 0 invariant (and (fresh c) (= (len c) (len a)) (= (len a) (len b)) (forall ((j Int)) (=> (and (<= 0 j) (<= j rangeindex)) (= (at c j) (bitand (at a j) (at b j))))))
+//@ func interpreter.opcodeOr
+//@   bytes array
+//@   opt index-fn 1
+//@   ensures[C05.opcodeOr_err] (= (= err nil) (and (>= (old (len (. t dstack stk))) 2) (= (old (len (at (. t dstack stk) (- (len (. t dstack stk)) 1)))) (old (len (at (. t dstack stk) (- (len (. t dstack stk)) 2)))))))
+//@   ensures[C05.opcodeOr] (=> (= err nil) (and (= (len (. t dstack stk)) (- (old (len (. t dstack stk))) 1)) (= (len (at (. t dstack stk) (- (len (. t dstack stk)) 1))) (old (len (at (. t dstack stk) (- (len (. t dstack stk)) 1))))) (forall ((i Int)) (=> (and (<= 0 i) (< i (len (at (. t dstack stk) (- (len (. t dstack stk)) 1))))) (= (at (at (. t dstack stk) (- (len (. t dstack stk)) 1)) i) (bitor (old (at (at (. t dstack stk) (- (len (. t dstack stk)) 1)) i)) (old (at (at (. t dstack stk) (- (len (. t dstack stk)) 2)) i)))))) (forall ((k Int)) (=> (and (<= 0 k) (< k (- (len (. t dstack stk)) 1))) (= (at (. t dstack stk) k) (old (at (. t dstack stk) k)))))))
+//@   loop 0 invariant (and (fresh c) (= (len c) (len a)) (= (len a) (len b)) (forall ((j Int)) (=> (and (<= 0 j) (<= j rangeindex)) (= (at c j) (bitor (at a j) (at b j))))))
+//@ func interpreter.opcodeXor
+//@   bytes array
+//@   opt index-fn 1
+//@   ensures[C05.opcodeXor_err] (= (= err nil) (and (>= (old (len (. t dstack stk))) 2) (= (old (len (at (. t dstack stk) (- (len (. t dstack stk)) 1)))) (old (len (at (. t dstack stk) (- (len (. t dstack stk)) 2)))))))
+//@   ensures[C05.opcodeXor] (=> (= err nil) (and (= (len (. t dstack stk)) (- (old (len (. t dstack stk))) 1)) (= (len (at (. t dstack stk) (- (len (. t dstack stk)) 1))) (old (len (at (. t dstack stk) (- (len (. t dstack stk)) 1))))) (forall ((i Int)) (=> (and (<= 0 i) (< i (len (at (. t dstack stk) (- (len (. t dstack stk)) 1))))) (= (at (at (. t dstack stk) (- (len (. t dstack stk)) 1)) i) (bitxor (old (at (at (. t dstack stk) (- (len (. t dstack stk)) 1)) i)) (old (at (at (. t dstack stk) (- (len (. t dstack stk)) 2)) i)))))) (forall ((k Int)) (=> (and (<= 0 k) (< k (- (len (. t dstack stk)) 1))) (= (at (. t dstack stk) k) (old (at (. t dstack stk) k)))))))
+//@   loop 0 invariant (and (fresh c) (= (len c) (len a)) (= (len a) (len b)) (forall ((j Int)) (=> (and (<= 0 j) (<= j rangeindex)) (= (at c j) (bitxor (at a j) (at b j))))))
+//@ func interpreter.opcodeInvert
+//@   bytes array
+//@   opt index-fn 1
+//@   ensures[C05.opcodeInvert_err] (= (= err nil) (>= (old (len (. t dstack stk))) 1))
+//@   ensures[C05.opcodeInvert] (=> (= err nil) (and (= (len (. t dstack stk)) (old (len (. t dstack stk)))) (= (len (at (. t dstack stk) (- (len (. t dstack stk)) 1))) (old (len (at (. t dstack stk) (- (len (. t dstack stk)) 1))))) (forall ((i Int)) (=> (and (<= 0 i) (< i (len (at (. t dstack stk) (- (len (. t dstack stk)) 1))))) (= (at (at (. t dstack stk) (- (len (. t dstack stk)) 1)) i) (bitxor (old (at (at (. t dstack stk) (- (len (. t dstack stk)) 1)) i)) 255)))) (forall ((k Int)) (=> (and (<= 0 k) (< k (- (len (. t dstack stk)) 1))) (= (at (. t dstack stk) k) (old (at (. t dstack stk) k)))))))
+//@   loop 0 invariant (and (fresh baInverted) (= (len baInverted) (len ba)) (forall ((j Int)) (=> (and (<= 0 j) (<= j rangeindex)) (= (at baInverted j) (bitxor (at ba j) 255)))))
+//@ func interpreter.opcodeCat
+//@   bytes token
+//@   opt index-fn 1
+//@   ensures[C05.opcodeCat] (=> (= err nil) (spec.stack_res_bytes t 2 (bcat (old (spec.top_bytes t 1)) (old (spec.top_bytes t 0)))))
+//@ func interpreter.opcodeSplit
+//@   bytes token
+//@   opt index-fn 1
+//@   ensures[C05.opcodeSplit] (=> (= err nil) (and (>= (old (len (. t dstack stk))) 2) (= (len (. t dstack stk)) (old (len (. t dstack stk)))) (<= 0 (old (spec.top_num t 0))) (<= (old (spec.top_num t 0)) (old (len (at (. t dstack stk) (- (len (. t dstack stk)) 2))))) (= (bytes (at (. t dstack stk) (- (len (. t dstack stk)) 2))) (bsub (old (spec.top_bytes t 1)) 0 (old (spec.top_num t 0)))) (= (bytes (at (. t dstack stk) (- (len (. t dstack stk)) 1))) (bsub (old (spec.top_bytes t 1)) (old (spec.top_num t 0)) (old (len (at (. t dstack stk) (- (len (. t dstack stk)) 2)))))) (forall ((k Int)) (=> (and (<= 0 k) (< k (- (len (. t dstack stk)) 2))) (= (at (. t dstack stk) k) (old (at (. t dstack stk) k)))))))
+
+// ---- C05 (continued): conditional execution (effect on the condition stack) ----
+//@ func interpreter.(*thread).isBranchExecuting
+//@   bytes array
+//@   pure
+//@   ensures[C05.branch_executing] (= result (spec.branch_exec t))
+//@ func interpreter.(*thread).shouldExec
+//@   bytes array
+//@   pure
+//@   ensures[C05.should_exec] (= result (spec.should_exec t (. pop op val)))
+//@   loop 0 invariant (and cf (forall ((k Int)) (=> (and (<= 0 k) (<= k rangeindex)) (distinct (at (. t condStack) k) 0))))
+//@ func interpreter.opcodeElse
+//@   bytes array
+//@   ensures[C05.opcodeElse] (=> (= err nil) (and (>= (old (len (. t condStack))) 1) (= (len (. t condStack)) (old (len (. t condStack)))) (= (spec.cond_last t) (ite (= (old (spec.cond_last t)) 1) 0 (ite (= (old (spec.cond_last t)) 0) 1 (old (spec.cond_last t))))) (forall ((k Int)) (=> (and (<= 0 k) (< k (- (len (. t condStack)) 1))) (= (at (. t condStack) k) (old (at (. t condStack) k)))))))
+//@   ensures[C05.opcodeElse_unbalanced] (=> (= (old (len (. t condStack))) 0) (distinct err nil))
+//@ func interpreter.opcodeEndif
+//@   bytes array
+//@   ensures[C05.opcodeEndif] (=> (= err nil) (and (>= (old (len (. t condStack))) 1) (= (len (. t condStack)) (- (old (len (. t condStack))) 1)) (forall ((k Int)) (=> (and (<= 0 k) (< k (len (. t condStack)))) (= (at (. t condStack) k) (old (at (. t condStack) k)))))))
+//@   ensures[C05.opcodeEndif_unbalanced] (=> (= (old (len (. t condStack))) 0) (distinct err nil))
+//@ func interpreter.popIfBool
+//@   bytes token
+//@   opt forall-patterns 1
+//@   ensures[C05.popifbool] (=> (= err nil) (and (>= (old (len (. t dstack stk))) 1) (= r0 (spec.truthy (old (spec.top_bytes t 0))))))
+//@   ensures[C05.popifbool_cond_untouched] (and (= (. t condStack) (old (. t condStack))) (forall ((k Int)) (=> (and (<= 0 k) (< k (old (len (. t condStack))))) (= (at (. t condStack) k) (old (at (. t condStack) k))))))
+//@ func interpreter.opcodeIf
+//@   bytes token
+//@   ensures[C05.opcodeIf] (=> (= err nil) (and (= (len (. t condStack)) (+ (old (len (. t condStack))) 1)) (forall ((k Int)) (=> (and (<= 0 k) (< k (old (len (. t condStack))))) (= (at (. t condStack) k) (old (at (. t condStack) k))))) (=> (not (old (spec.should_exec t (. op op val)))) (= (spec.cond_last t) 0)) (=> (and (old (spec.should_exec t (. op op val))) (not (old (spec.branch_exec t)))) (= (spec.cond_last t) 2)) (=> (and (old (spec.should_exec t (. op op val))) (old (spec.branch_exec t))) (and (>= (old (len (. t dstack stk))) 1) (= (spec.cond_last t) (ite (spec.truthy (old (spec.top_bytes t 0))) 1 0))))))
+//@ func interpreter.opcodeNotIf
+//@   bytes token
+//@   ensures[C05.opcodeNotIf] (=> (= err nil) (and (= (len (. t condStack)) (+ (old (len (. t condStack))) 1)) (forall ((k Int)) (=> (and (<= 0 k) (< k (old (len (. t condStack))))) (= (at (. t condStack) k) (old (at (. t condStack) k))))) (=> (not (old (spec.should_exec t (. op op val)))) (= (spec.cond_last t) 0)) (=> (and (old (spec.should_exec t (. op op val))) (not (old (spec.branch_exec t)))) (= (spec.cond_last t) 2)) (=> (and (old (spec.should_exec t (. op op val))) (old (spec.branch_exec t))) (and (>= (old (len (. t dstack stk))) 1) (= (spec.cond_last t) (ite (spec.truthy (old (spec.top_bytes t 0))) 0 1))))))
